@@ -67,7 +67,7 @@ func stressUID(pub, topic int, qos byte) uint64 {
 	return uint64(pub)<<48 | uint64(topic)<<40 | uint64(qos)<<36
 }
 
-var stressSizes = []int{spec.PayloadMin, 100, 4096, 8192 - 40}
+var stressSizes = []int{spec.PayloadMin, 100, 4096, 8192 - 40, 12000, 15900} // the last two: packets close to the 16 KiB ring (see repair 4c29119)
 
 func runStress(cfg stressCfg) *stressResult {
 	res := &stressResult{}
@@ -222,7 +222,7 @@ func runStress(cfg stressCfg) *stressResult {
 				key := [2]int{t, int(q)}
 				seqs[key]++
 				size := stressSizes[r.Intn(len(stressSizes))]
-				if size > int(cfg.BufferSize)-8192-64 {
+				if size > int(cfg.BufferSize)-300 {
 					size = 4096
 				}
 				pk := &rc.Packet{Type: rc.PUBLISH, Topic: []byte(topicName(p, t)), QoS: q, Payload: spec.MakePayload(stressUID(p, t, q), seqs[key], size)}
